@@ -12,6 +12,7 @@ import (
 
 	"github.com/MichaelMure/git-bug/cache"
 	"github.com/MichaelMure/git-bug/entities/bug"
+	"github.com/MichaelMure/git-bug/entities/identity"
 	"github.com/MichaelMure/git-bug/entity"
 	"github.com/MichaelMure/git-bug/query"
 )
@@ -132,6 +133,68 @@ func c18Run(c *runCtx, r *rng, ci, workers, procs, cacheSize, steps int) {
 	for _, id := range burstOps {
 		attempted[id] = true
 	}
+	// ---- commit races: operations of two authors are staged on one bug (its commit then writes one
+	// pack per run of equal author, which takes a while), then all workers ask for the commit at the
+	// same moment. Commits of one instance must exclude each other.
+	if cacheSize == 0 {
+		other, err := rc.Identities().New("second author", "s@example.com")
+		if err != nil {
+			panic(err)
+		}
+		me, _ := rc.GetUserIdentity()
+		races := c.pick(12, 60)
+		target := shared[1]
+		for round := 0; round < races; round++ {
+			b, err := rc.Bugs().Resolve(target)
+			if err != nil {
+				break
+			}
+			var staged []entity.Id
+			for k := 0; k < 4; k++ {
+				var author identity.Interface = me
+				if k%2 == 1 {
+					author = other
+				}
+				if _, op, err := b.AddCommentRaw(author, time.Now().Unix(), fmt.Sprintf("race %d/%d", round, k), nil, nil); err == nil {
+					staged = append(staged, op.Id())
+					attempted[op.Id()] = true
+				}
+			}
+			var cw sync.WaitGroup
+			gate := make(chan struct{})
+			okc := make([]bool, workers)
+			for w := 0; w < workers; w++ {
+				cw.Add(1)
+				go func(w int) {
+					defer cw.Done()
+					defer func() { recover() }()
+					<-gate
+					if bb, err := rc.Bugs().Resolve(target); err == nil {
+						okc[w] = bb.CommitAsNeeded() == nil
+					}
+				}(w)
+			}
+			close(gate)
+			cdone := make(chan struct{})
+			go func() { cw.Wait(); close(cdone) }()
+			select {
+			case <-cdone:
+			case <-time.After(25 * time.Second):
+				c.violation(-1, "C18/deadlock", "simultaneous CommitAsNeeded calls did not return ("+tag+")", map[string]any{"conf": tag})
+				return
+			}
+			all := true
+			for _, o := range okc {
+				all = all && o
+			}
+			if all {
+				for _, id := range staged {
+					acks = append(acks, c18Ack{-1, target, id, false})
+				}
+			}
+		}
+		c.countN("commit-races", races)
+	}
 	stuck := make([]string, workers) // what each worker is doing right now
 	var wg sync.WaitGroup
 	seeds := make([]*rng, workers)
@@ -231,9 +294,15 @@ func c18Run(c *runCtx, r *rng, ci, workers, procs, cacheSize, steps int) {
 						mu.Unlock()
 					}
 				case x < 9:
-					set("Query")
-					q, _ := query.Parse("status:open")
-					rc.Bugs().Query(q)
+					// filters only, full-text search (goes through the search index while holding the
+					// sub-cache's read lock), and the nil query
+					qs := pickOne(rr, []string{"status:open", "shared", "created workers", "title:shared sort:edit", "comment status:open", "<nil>"})
+					set("Query " + qs)
+					if qs == "<nil>" {
+						rc.Bugs().Query(nil)
+					} else if q, err := query.Parse(qs); err == nil {
+						rc.Bugs().Query(q)
+					}
 					rc.Bugs().AllIds()
 				default:
 					set("ResolveExcerpt")
